@@ -1,8 +1,12 @@
 SPECIFICATION Spec
 CONSTANTS
   N = 3
-  DSNames = {"basic", "wrap", "long", "role250", "meta", "hist", "delta"}
+  DSNames = {"basic", "wrap", "long", "kids", "meta", "hist", "delta"}
   MaxExtra = 3
+  SkipSet = {"sync", "jump", "unknown", "unknown0", "unknownL", "byte"}
+  HdrSet = {"bbox", "filets"}
+  RefPolicy = "any"
+  BulkN = 5
   RoleLimit = 250
   ExportHist = TRUE
 INVARIANTS TableAgree RegsAgree DecodedOK Export
